@@ -48,7 +48,7 @@
        about the caller's assets, not about the script's execution, and it needs no [isel]).
      interp_is_recursive: work-list evaluator = recursive evaluator, every ms and stack, no INoFuel.
    Each clause is additionally checked per run by the oracle (tools/props/c13.py). *)
-From Verif Require Import Spend InterpTxdataModel InterpTxdataProofs InterpTxdataAll.
+From Verif Require Import Spend InterpTxdataModel InterpTxdataProofs InterpTxdataAll InterpTxdataKeys.
 From Verif Require Import Exec ExecTrace Ser Ast Types TypeCheck SatSpec TheoremA DenotSpec InterpModel InterpRefine InterpSound InterpWitness InterpComplete InterpDenot InterpMain InterpPolicy InterpGenuine.
 Local Open Scope N_scope.
 
@@ -253,7 +253,7 @@ Example interp_iff_nonvacuous :
 Proof. exact iff_nonvacuous. Qed.
 
 (* ------------------------------------------------------------------ from_txdata (src/interpreter/inner.rs)
-   Model: Ms/InterpTxdataModel.v ([from_txdata]); proofs: Proofs/InterpTxdataProofs.v, InterpTxdataAll.v.
+   Model: Ms/InterpTxdataModel.v ([from_txdata]); proofs: Proofs/InterpTxdataProofs.v, InterpTxdataAll.v, InterpTxdataKeys.v.
    FULL STATEMENTS (all output types: bare, pk, pkh, wpkh, wsh, sh, sh-wpkh, sh-wsh, tr key / script path):
      from_txdata_sound: model = Ok(kind, script, stack, code) -> Spend.v's verify_spend on the same
        spk / scriptSig / witness is the execution of exactly that script (resp. CHECKSIG on that key) on
@@ -261,13 +261,17 @@ Proof. exact iff_nonvacuous. Qed.
        only pushes / OP_1 and whose script the library decodes, is not refused;  composition with the
        evaluator's soundness.
    PROVED:
-     from_txdata_sound_partial: EVERY script-bearing arm (wsh, sh-wsh, sh, bare, tr script path), as an
-       equation verify_spend = spec_body (the kind's size bounds && execution of that script on that stack).
-       MISSING arms: the key-only kinds (p2pk, p2pkh, p2wpkh, sh-wpkh, tr key path): modelled and tied per run,
-       no Coq theorem against verify_spend_ext.
+     from_txdata_sound: EVERY arm -- the five script-bearing ones (wsh, sh-wsh, sh, bare, tr script path) as an
+       equation verify_spend = spec_body (the kind's size bounds && execution of that script on that stack), and
+       the five key-only ones (p2pk, p2pkh, p2wpkh, sh-wpkh, tr key path) against the branches of Spend.v's
+       verify_spend that handle them (p2pk / p2pkh are bare scripts for the specification; p2wpkh / sh-wpkh:
+       verify_wpkh; tr key path: e_sigok).  No _partial suffix: every Ok arm of the model is covered.
      from_txdata_interp_sound: the composition for every script-bearing arm, instantiated with the
        evaluator's soundness theorem (interp_sound_partial = InterpMain.interp_sound_env); the composition
-       only concerns script kinds, so it carries no _partial suffix.
+       with [interp] only concerns script kinds, so it carries no _partial suffix.
+     from_txdata_interp_pk_sound_partial: the composition with [interp_pk] for the taproot key path.  MISSING
+       arms: p2pk, p2pkh, p2wpkh, sh-wpkh (the specification runs DUP HASH160 <h> EQUALVERIFY CHECKSIG / <k>
+       CHECKSIG there; relating that execution to e_sigok needs the Script semantics of those opcodes).
      from_txdata_complete_std_partial_{wsh,shwsh,sh,bare,tr}: every script-bearing arm.  MISSING arms: the
        key-only kinds.
    Taproot leaf version: from_txdata asks rust-bitcoin for the commitment of the control block only and never
@@ -275,14 +279,38 @@ Proof. exact iff_nonvacuous. Qed.
    [co sb cb] as a factor ([cbok]); the composition assumes [f_commit fe sb cb = true -> co sb cb = true], i.e.
    that a control block whose commitment verifies carries leaf version 0xc0 (true of every output a descriptor
    builds; for another leaf version consensus does not run the script at all). *)
-Theorem from_txdata_sound_partial :
+(* EVERY arm of from_txdata (InterpTxdataKeys.sound_statement spells the ten cases out):
+     Script(sb, t):   code = Some sb, verify_spend = spec_body e t ssig sb stack cbok   (cbok: taproot commitment)
+     PublicKey(k, Tr):     code = None, witness = [sg], stack = [sg], verify_spend = e_sigok e k sg
+     PublicKey(k, Wpkh):   code = P2PKH script of hash160 k, witness = stack ++ [k] (bottom first),
+                           verify_spend = wpkh_body e k stack (exactly one item; that script on [k; sig], witness-v0)
+     PublicKey(k, ShWpkh): the same && scriptSig size bound
+     PublicKey(k, Pkh):    code = spk = P2PKH script of hash160 k, verify_spend = spk executed on k :: stack
+     PublicKey(k, Pk):     code = spk, spk is the P2PK script of k, verify_spend = spk executed on stack *)
+Theorem from_txdata_sound :
+  forall e fe co spk ssig wit i st code,
+    from_txdata e fe spk ssig wit = FOk i st code -> sound_statement e fe co spk ssig wit i st code.
+Proof. exact from_txdata_sound_every_arm. Qed.
+Print Assumptions from_txdata_sound.
+
+(* the script-bearing arms on their own *)
+Theorem from_txdata_sound_script :
   forall e fe co spk ssig wit sb t st code,
     from_txdata e fe spk ssig wit = FOk (InScript sb t) st code ->
     code = Some sb /\
     exists cbok, (t = StTr -> exists cb, hd_error (rev wit) = Some cb /\ f_commit fe sb cb = true /\ cbok = co sb cb) /\
                  verify_spend e co spk ssig wit = spec_body e t ssig sb (map conc st) cbok.
 Proof. exact from_txdata_sound_all. Qed.
-Print Assumptions from_txdata_sound_partial.
+Print Assumptions from_txdata_sound_script.
+
+(* taproot key path composed with the evaluator model for key-only outputs *)
+Theorem from_txdata_interp_pk_sound_partial :
+  forall e fe co spk ssig wit k st code cs,
+    from_txdata e fe spk ssig wit = FOk (InPk k PtTr) st code ->
+    interp_pk e k st = IAccept cs ->
+    verify_spend e co spk ssig wit = true.
+Proof. exact from_txdata_interp_pk_trkey. Qed.
+Print Assumptions from_txdata_interp_pk_sound_partial.
 
 (* the same, arm by arm, with the body spelled out *)
 Theorem from_txdata_sound_wsh_eq :
